@@ -21,3 +21,194 @@ Proof.
   step_cases Hs; cbn in Hin;
     repeat (destruct Hin as [Hin|Hin]; [subst e; cbn; auto 6|]); try contradiction.
 Qed.
+
+(* ---------- every notify_all is issued inside the critical section of its mutex (C07, lifetime argument) ----------
+   trigger() and activate() call notify_all while they still own the mutex paired with the condition variable.  A
+   waiter can observe the flag only under that mutex (or, for wait()'s fast path, after reset() stored
+   activated=false, which follows the trigger's unlock), so when a wait returns the trigger()/activate() that
+   released it has made its last access but the unlock.  Notifying after the unlock ("to spare the woken
+   threads a futile wake-up") lets a waiter return - and destroy the variable - while notify_all is still to
+   come. *)
+Local Open Scope nat_scope.
+Lemma notify_under_lock a0 progs s t c l g' l' es e :
+  R a0 progs s -> nth_error (thr s) t = Some l -> tstep t c (gl s) l = Some (g', l', es) -> In e es ->
+  ek e = K_NOTIFY_ALL ->
+  (eo e = O_CVT /\ mT (gl s) = Some t /\ mT g' = Some t) \/ (eo e = O_CVA /\ mA (gl s) = Some t /\ mA g' = Some t).
+Proof.
+  intros HR Hl Hs Hin Hk. destruct (R_inv _ _ _ HR) as [H1 _].
+  pose proof (I_ownT _ _ H1 t) as HT. pose proof (I_ownA _ _ H1 t) as HA.
+  rewrite (pcof_at _ _ _ Hl) in HT, HA.
+  destruct l as [pr p s1 s2 s3 s4]. cbn [at_] in *.
+  step_cases Hs; cbn in Hin;
+    repeat (destruct Hin as [Hin|Hin]; [subst e; cbn in Hk; try discriminate|]); try contradiction.
+  - right. cbn. specialize (HA eq_refl). auto.
+  - left. cbn. specialize (HT eq_refl). auto.
+Qed.
+
+(* the critical sections of triggerLock are exclusive: while a thread is inside trigger()'s section (store, notify,
+   unlock) no wait() / wait_for() is between its lock and its unlock, hence none can be returning *)
+Lemma trigger_section_exclusive a0 progs s u v :
+  R a0 progs s -> holdsT (pcof (thr s) u) = true -> holdsT (pcof (thr s) v) = true -> u = v.
+Proof.
+  intros HR Hu Hv. destruct (R_inv _ _ _ HR) as [H1 _].
+  pose proof (I_ownT _ _ H1 u Hu). pose proof (I_ownT _ _ H1 v Hv). congruence.
+Qed.
+
+(* ---------- the unlocked fast path of wait() / wait_for() in the Views semantics (Common/Views.v) ----------
+   `if (!activated.load()) return true;` takes no mutex.  A consumer whose wait() returns through it after the
+   producer's  <write result>; trigger(); reset()  is ordered after the producer only by reading the
+   activated=false store of reset().  That store (seq_cst in the source) must release and the load must acquire.
+   Thread 0 is the producer (PWrite*, then one PReset), threads 1..N-1 are consumers (CLoad = the fast-path load
+   with its coherence choice, CRead = reading the result after a load that returned false). *)
+From GV Require Import Views.
+
+Inductive fact := PWrite | PReset | CLoad (w ch : nat) | CRead (w : nat).
+Record fstate := FS {
+  fclk : nat -> vc; fhist : hist; fseen : nat -> nat; fdat : ft; frace : bool;
+  fopen : nat -> bool;           (* the thread's last fast-path load read activated = false *)
+  fdone : bool; fpclk : vc       (* ghost: reset() has stored; the producer's clock at that store *)
+}.
+
+Section TriggerFastPath.
+  Variable N : nat.
+  Variables store_mo load_mo : mo.
+
+  Definition finit : fstate := FS clk0 [] (fun _ => 0) ft0 false (fun _ => false) false vzero.
+
+  Definition fstep (s : fstate) (a : fact) : fstate :=
+    match a with
+    | PWrite =>
+      let (f, ok) := ft_write N 0 (fclk s 0) (fdat s) in
+      FS (fupd (fclk s) 0 (vinc (fclk s 0) 0)) (fhist s) (fseen s) f (frace s || negb ok) (fopen s) (fdone s) (fpclk s)
+    | PReset =>
+      let c := fclk s 0 in
+      FS (fupd (fclk s) 0 (vinc c 0)) (store_msg store_mo 0 c 0%Z :: fhist s) (fupd (fseen s) 0 (S (length (fhist s))))
+         (fdat s) (frace s) (fopen s) true c
+    | CLoad w ch =>
+      let i := pick true (fhist s) (fclk s w) (fseen s w) ch in
+      let v := read_val 1%Z (fhist s) i in
+      FS (fupd (fclk s) w (read_clock load_mo (fhist s) i (fclk s w))) (fhist s)
+         (fupd (fseen s) w (read_stamp (fhist s) i)) (fdat s) (frace s) (fupd (fopen s) w (v =? 0)%Z) (fdone s) (fpclk s)
+    | CRead w =>
+      let (f, ok) := ft_read w (fclk s w) (fdat s) in
+      FS (fclk s) (fhist s) (fseen s) f (frace s || negb ok) (fopen s) (fdone s) (fpclk s)
+    end.
+
+  (* client discipline: the producer writes its result before reset(); a consumer reads it only after its
+     fast-path load returned false *)
+  Definition fok (s : fstate) (a : fact) : Prop :=
+    match a with
+    | PWrite => fdone s = false
+    | PReset => fdone s = false
+    | CLoad w _ => 0 < w < N
+    | CRead w => 0 < w < N /\ fopen s w = true
+    end.
+  Fixpoint ftrace_ok (s : fstate) (tr : list fact) : Prop :=
+    match tr with [] => True | a :: r => fok s a /\ ftrace_ok (fstep s a) r end.
+  Definition frun (s : fstate) (tr : list fact) : fstate := fold_left fstep tr s.
+
+  Hypothesis Hrel : is_rel store_mo = true.
+  Hypothesis Hacq : is_acq load_mo = true.
+
+  Record FInv (s : fstate) : Prop := {
+    J_seen : forall t, fseen s t <= length (fhist s);
+    J_hist : (fdone s = false -> fhist s = []) /\
+             (fdone s = true -> exists m, fhist s = [m] /\ mval m = 0%Z /\ mrel m = Some (fpclk s));
+    J_dat : fwho (fdat s) = 0 /\
+            (fdone s = false -> fwhen (fdat s) <= fclk s 0 0 /\ forall x, fR (fdat s) x = 0) /\
+            (fdone s = true -> fwhen (fdat s) <= fpclk s 0);
+    J_open : forall w, fopen s w = true -> fdone s = true /\ vle (fpclk s) (fclk s w);
+    J_race : frace s = false
+  }.
+
+  Lemma FInv_init : FInv finit.
+  Proof. constructor; cbn; intros; try lia; try discriminate; repeat split; intros; try discriminate; auto; lia. Qed.
+
+  Lemma fstep_inv s a : FInv s -> fok s a -> FInv (fstep s a).
+  Proof.
+    intros [Hseen [Hh0 Hh1] (Hw & Hd0 & Hd1) Hop Hrace] Hok.
+    destruct a as [| |w ch|w]; cbn [fstep fok] in *.
+    - (* PWrite *)
+      destruct (Hd0 Hok) as [Hle HR].
+      assert (Hwok : snd (ft_write N 0 (fclk s 0) (fdat s)) = true).
+      { apply ft_write_ok; [rewrite Hw; exact Hle|intros x _; rewrite HR; lia]. }
+      destruct (ft_write N 0 (fclk s 0) (fdat s)) as [f okb] eqn:Ew. cbn in Hwok. subst okb.
+      assert (Ef : f = Ft 0 (fclk s 0 0) vzero) by (unfold ft_write in Ew; inversion Ew; reflexivity).
+      constructor; cbn.
+      + exact Hseen.
+      + split; assumption.
+      + subst f. cbn. split; [reflexivity|]. split; [|intros E; congruence].
+        intros _. split; [lia|reflexivity].
+      + intros w Ho. destruct (Hop w Ho) as [E _]. congruence.
+      + rewrite Hrace. reflexivity.
+    - (* PReset *)
+      destruct (Hd0 Hok) as [Hle HR]. specialize (Hh0 Hok).
+      constructor; cbn.
+      + intros t. rewrite Hh0. cbn. unfold fupd. destruct (Nat.eqb t 0); [lia|].
+        specialize (Hseen t). rewrite Hh0 in Hseen. cbn in Hseen. lia.
+      + split; [intros; discriminate|]. intros _. rewrite Hh0. eexists. split; [reflexivity|].
+        unfold store_msg. cbn. rewrite Hrel. auto.
+      + split; [exact Hw|]. split; [intros; discriminate|]. intros _. exact Hle.
+      + intros w Ho. destruct (Hop w Ho) as [E _]. congruence.
+      + exact Hrace.
+    - (* CLoad *)
+      destruct Hok as [Hw0 HwN].
+      pose proof (pick_bounds true (fhist s) (fclk s w) (fseen s w) ch (Hseen w)) as [Pb1 Pb2].
+      set (i := pick true (fhist s) (fclk s w) (fseen s w) ch) in *.
+      assert (Hne : Nat.eqb 0 w = false) by (apply Nat.eqb_neq; lia).
+      constructor; cbn.
+      + intros t. unfold fupd, read_stamp. destruct (Nat.eqb t w); [lia|apply Hseen].
+      + split; assumption.
+      + split; [exact Hw|]. split; [|exact Hd1].
+        intros E. unfold fupd. rewrite Hne. apply Hd0. exact E.
+      + intros x Ho. unfold fupd in Ho |- *. destruct (Nat.eqb x w) eqn:Ex.
+        * apply Z.eqb_eq in Ho. destruct (fdone s) eqn:Ed.
+          -- split; [reflexivity|]. destruct (Hh1 eq_refl) as [m [Em [Ev Er]]]. rewrite Em in *. cbn in Pb1.
+             destruct i as [|[|i]]; [|unfold read_val in Ho; cbn in Ho; discriminate|lia].
+             eapply read_clock_acq; eauto. reflexivity.
+          -- rewrite (Hh0 eq_refl) in Ho. unfold read_val in Ho. destruct i; cbn in Ho; discriminate.
+        * apply Hop. exact Ho.
+      + exact Hrace.
+    - (* CRead *)
+      destruct Hok as [[Hw0 HwN] Ho]. destruct (Hop w Ho) as [Ed Hle].
+      assert (Hrok : snd (ft_read w (fclk s w) (fdat s)) = true).
+      { apply ft_read_ok. rewrite Hw. specialize (Hd1 Ed). specialize (Hle 0). lia. }
+      destruct (ft_read w (fclk s w) (fdat s)) as [f okb] eqn:Er. cbn in Hrok. subst okb.
+      assert (Ef : fwho f = fwho (fdat s) /\ fwhen f = fwhen (fdat s)) by (unfold ft_read in Er; inversion Er; cbn; auto).
+      destruct Ef as [E1 E2].
+      constructor; cbn.
+      + exact Hseen.
+      + split; assumption.
+      + rewrite E1, E2. split; [exact Hw|]. split; [intros E; congruence|exact Hd1].
+      + exact Hop.
+      + rewrite Hrace. reflexivity.
+  Qed.
+
+  Lemma frun_inv tr : forall s, FInv s -> ftrace_ok s tr -> FInv (frun s tr).
+  Proof.
+    induction tr as [|a r IH]; intros s HI Hok; cbn in *; [exact HI|].
+    destruct Hok as [Ha Hr]. apply IH; [apply fstep_inv; assumption|exact Hr].
+  Qed.
+
+  (* with a releasing store in reset() and an acquiring fast-path load, no disciplined client races, and a
+     consumer whose load read false happens-after the producer's reset() (hence after its trigger()) *)
+  Theorem fast_path_publishes tr : ftrace_ok finit tr -> frace (frun finit tr) = false.
+  Proof. intros H. apply (J_race _ (frun_inv tr finit FInv_init H)). Qed.
+  Theorem fast_path_ordered tr w : ftrace_ok finit tr -> fopen (frun finit tr) w = true ->
+    vle (fpclk (frun finit tr)) (fclk (frun finit tr) w).
+  Proof. intros H Ho. apply (J_open _ (frun_inv tr finit FInv_init H) w Ho). Qed.
+End TriggerFastPath.
+
+(* reset() storing activated=false with memory_order_relaxed (or the fast-path load being relaxed): the same
+   disciplined client races *)
+Definition fast_path_witness : list fact := [PWrite; PReset; CLoad 1 0; CRead 1].
+Lemma reset_store_relaxed_refuted :
+  ftrace_ok 2 Relaxed SeqCst (finit) fast_path_witness /\
+  frace (frun 2 Relaxed SeqCst finit fast_path_witness) = true /\
+  frace (frun 2 SeqCst SeqCst finit fast_path_witness) = false /\
+  frace (frun 2 Release Acquire finit fast_path_witness) = false.
+Proof. split; [cbn; repeat split; auto|]. repeat split; vm_compute; reflexivity. Qed.
+Lemma fast_path_load_relaxed_refuted :
+  ftrace_ok 2 SeqCst Relaxed finit fast_path_witness /\
+  frace (frun 2 SeqCst Relaxed finit fast_path_witness) = true.
+Proof. split; [cbn; repeat split; auto|vm_compute; reflexivity]. Qed.
